@@ -15,7 +15,7 @@ class VError(Exception):
 
 
 # ----------------------------------------------------------------------------- parsing
-TOK = re.compile(r"\s*(\d+'[hdb][0-9a-fA-F_]+|\d+|[A-Za-z_][A-Za-z0-9_$]*|==|<=|[-+*&|^~<>?:{}\[\](),=;])")
+TOK = re.compile(r"\s*(\d+'[hdb][0-9a-fA-F_]+|\d+|[A-Za-z_][A-Za-z0-9_$]*|==|!=|<=|>=|[-+*&|^~<>?:{}\[\](),=;])")
 
 
 def tokenize(s):
@@ -30,7 +30,8 @@ def tokenize(s):
     return out
 
 
-PREC = [('==',), ('<', '>'), ('|',), ('^',), ('&',), ('+', '-'), ('*',)]
+PREC = [('|',), ('^',), ('&',), ('==', '!='), ('<', '>', '<=', '>='), ('+', '-'), ('*',)]
+CMP = ('<', '>', '==', '<=', '>=', '!=')
 
 
 def parse_expr(toks, i=0):
@@ -227,7 +228,8 @@ class IntBE(object):
         return (f() & ((1 << w) - 1), w)
 
     def cmp(self, op, a, b):
-        r = {'<': a[0] < b[0], '>': a[0] > b[0], '==': a[0] == b[0]}[op]
+        r = {'<': a[0] < b[0], '>': a[0] > b[0], '==': a[0] == b[0], '<=': a[0] <= b[0], '>=': a[0] >= b[0],
+             '!=': a[0] != b[0]}[op]
         return (int(r), 1)
 
     def inv(self, a):
@@ -273,7 +275,8 @@ class Z3BE(object):
 
     def cmp(self, op, a, b):
         z3 = self.z3
-        c = {'<': lambda: z3.ULT(a, b), '>': lambda: z3.UGT(a, b), '==': lambda: a == b}[op]()
+        c = {'<': lambda: z3.ULT(a, b), '>': lambda: z3.UGT(a, b), '==': lambda: a == b, '<=': lambda: z3.ULE(a, b),
+             '>=': lambda: z3.UGE(a, b), '!=': lambda: a != b}[op]()
         return z3.If(c, z3.BitVecVal(1, 1), z3.BitVecVal(0, 1))
 
     def inv(self, a):
@@ -304,7 +307,7 @@ def self_width(e, widths, mems):
     if k == '~':
         return self_width(e[1], widths, mems)
     if k == 'bin':
-        if e[1] in ('<', '>', '=='):
+        if e[1] in CMP:
             return 1
         return max(self_width(e[2], widths, mems), self_width(e[3], widths, mems))
     if k == '?:':
@@ -332,7 +335,7 @@ def ev(e, W, env, widths, mems, memstate, be):
     if k == '~':
         return be.inv(ev(e[1], W, env, widths, mems, memstate, be))
     if k == 'bin':
-        if e[1] in ('<', '>', '=='):
+        if e[1] in CMP:
             w = max(self_width(e[2], widths, mems), self_width(e[3], widths, mems))
             return be.resize(be.cmp(e[1], ev(e[2], w, env, widths, mems, memstate, be),
                                     ev(e[3], w, env, widths, mems, memstate, be)), W)
